@@ -33,10 +33,13 @@ PULL_LOCATIONS = Contract(
 # the name of a test is never rewritten during a traversal (readiness and pick predicates depend on it)
 NAMES_KEPT = ("forall(Ref('Params'), lambda p: ('name' in p) == old('name' in p) and implies('name' in p, p['name'] == old(p['name'])))")
 
+NO_FINISHED_MARKER_YET = ("forall(Ref('TestNode'), lambda n: implies(allocated(n), n.finished_worker == old(n.finished_worker)))")
+
 TRAVERSE_TERMINAL = Contract(
     target=f"{GRAPH}::TestGraph.traverse_terminal_node",
     name="TestGraph.traverse_terminal_node[summary]",
     params={"self": Ref("TestGraph"), "object_name": STR, "worker": Ref("TestWorker"), "params": (Ref("Params"), "nullable")},
+    requires=[NO_FINISHED_MARKER_YET],
     raises={"AssertionError": None, "RuntimeError": None, "ValueError": None, "ParamNotFound": None, "KeyError": None},
     ensures=[("markers_kept", "forall(Ref('TestNode'), lambda n: implies(allocated(n), n.started_worker == old(n.started_worker) "
                               "and n.finished_worker == old(n.finished_worker)))"),
@@ -52,7 +55,9 @@ TRAVERSE_TERMINAL = Contract(
 RUN_TEST_NODE_MARKED = Contract(
     target=RUN_TEST_NODE.target, name="TestRunner.run_test_node[call site]",
     params={"self": Ref("TestRunner"), "node": Ref("TestNode"), "status_timeout": const(10)},
-    requires=["node.started_worker is not None"] + [r for r in RUN_TEST_NODE.requires if "status_timeout" not in r],
+    # while a test is awaited nobody may already see it as finished by this traversal step: no finished marker has been
+    # written since the step was entered (old() at a call site refers to the entry of the calling function)
+    requires=["node.started_worker is not None", NO_FINISHED_MARKER_YET] + [r for r in RUN_TEST_NODE.requires if "status_timeout" not in r],
     raises=RUN_TEST_NODE.raises, ensures=RUN_TEST_NODE.ensures, result_kind=BOOL, frame=RUN_TEST_NODE.frame,
     extra_names=RUN_TEST_NODE.extra_names, props=[],
 )
@@ -109,7 +114,7 @@ TRAVERSE_NODE = Contract(
     frame=["TestNode.started_worker", "TestNode.finished_worker", "TestNode.results", "TestNode.prefix", "Params.p_has",
            "Params.p_val", "JobResultSet.tests", "JobResult.j_status", "JobResult.j_time", "JobResult.tid", "TestID.name",
            "TestID.uid", "Result.r_name", "Result.r_status", "TestObject.current_state", "TestNode.should_rerun"],
-    props=["C04", "C02", "C03"],
+    props=["C04", "C02", "C03", "C01"],
     assumes=["pull_locations and traverse_terminal_node are used through summaries (frame only); their own clauses are "
              "checked by the bounded stand-in sync_scan_pull and by the scenario checks"],
 )
